@@ -446,7 +446,7 @@ def _check_surface_input_object(cx: SurfCtx, seq, run, sres, queried, callee):
 
 def explore_surface(cx: SurfCtx):
     rep = cx.rep
-    init = {"V": cx.Pf0, "F": cx.F0, "E": [tuple(e) for e in cx.E0], "P": cx.P0, "depth": 0}
+    init = {"V": cx.Pf0, "F": cx.F0, "E": [tuple(e) for e in cx.E0], "P": [R.W(i) for i in range(len(cx.P0))], "depth": 0}
     key0 = h64(pickle.dumps((init["V"], init["F"], init["E"], True)))
     known = {(): init}
     seen = {key0}
@@ -487,10 +487,13 @@ def explore_surface(cx: SurfCtx):
                 taken = [] if kind == "FAN" else R.quad_with_taken_diagonal(st["F"], None if arg is None else {arg})
                 try:
                     rep.evaluations += 5
-                    Pex, stats = R.validate_surface_step(st["P"], st["V"], st["F"], kind, None if arg is None else [arg], obs["V"], obs["F"])
+                    Wts, stats = R.validate_surface_step(st["P"], cx.P0, st["V"], st["F"], kind, None if arg is None else [arg], obs["V"], obs["F"])
                     if not F.is_oriented_manifold(obs["F"], len(obs["V"])):
                         raise R.StepFailure("valid_mesh", "not_an_oriented_manifold", {})
-                    after = {"V": obs["V"], "F": obs["F"], "E": obs["E"], "P": Pex, "depth": st["depth"] + 1}
+                    after = {"V": obs["V"], "F": obs["F"], "E": obs["E"], "P": Wts, "depth": st["depth"] + 1}
+                    Pex = [R.pos(w, cx.P0) for w in Wts]
+                except R.Degenerate:
+                    rep.count("filtered_coincident_refinement_points")
                 except R.StepFailure as sf:
                     if taken:
                         rep.violation("C13.surf.valid_mesh", S_CALLEE["TF"], "mismatch:quad_split_along_an_existing_edge", "quad_diagonal_already_an_edge",
@@ -570,7 +573,10 @@ def check_split_double(cx: SurfCtx):
         if not queried:
             try:
                 rep.evaluations += 4
-                Pex, _ = R.validate_surface_step(cx.P0, cx.Pf0, cx.F0, "FAN", targets, s["V"], s["F"])
+                Wts, _ = R.validate_surface_step([R.W(i) for i in range(len(cx.P0))], cx.P0, cx.Pf0, cx.F0, "FAN", targets, s["V"], s["F"])
+                Pex = [R.pos(w, cx.P0) for w in Wts]
+            except R.Degenerate:
+                rep.count("filtered_coincident_refinement_points"); return
             except R.StepFailure as sf:
                 rep.violation("C13.surf." + sf.clause, callee, "mismatch:" + sf.label, cx.icls, cx.detail(seq, targets=targets, **sf.detail)); return
             _check_surface_result(cx, seq, Rm, {"V": s["V"], "F": s["F"]}, Pex, callee, "SDB:" + cx.icls)
@@ -763,7 +769,7 @@ def _vol_args(st, prev, all_args):
 
 def explore_volume(cx: VolCtx):
     rep = cx.rep
-    init = {"V": cx.s0["V"], "C": cx.s0["C"], "F": cx.s0["F"], "P": cx.P0}
+    init = {"V": cx.s0["V"], "C": cx.s0["C"], "F": cx.s0["F"], "P": [R.W(i) for i in range(len(cx.P0))]}
     known = {(): init}
     seen = {h64(pickle.dumps((init["V"], init["C"], init["F"])))}
     frontier = [()]
@@ -797,8 +803,11 @@ def explore_volume(cx: VolCtx):
                 rep.outcome(kind, (len(obs["V"]) - len(st["V"]), len(obs["C"]) - len(st["C"])))
                 try:
                     rep.evaluations += 4
-                    Pex, _ = R.validate_volume_step(st["P"], st["V"], st["C"], st["F"], kind, arg, obs["V"], obs["C"])
-                    after = {"V": obs["V"], "C": obs["C"], "F": obs["F"], "P": Pex}
+                    Wts, _ = R.validate_volume_step(st["P"], cx.P0, st["V"], st["C"], st["F"], kind, arg, obs["V"], obs["C"])
+                    after = {"V": obs["V"], "C": obs["C"], "F": obs["F"], "P": Wts}
+                    Pex = [R.pos(w, cx.P0) for w in Wts]
+                except R.Degenerate:
+                    rep.count("filtered_coincident_refinement_points")
                 except R.StepFailure as sf:
                     rep.violation("C13.vol." + sf.clause, callee, "mismatch:" + sf.label, cls,
                                   cx.detail(seq2, cells_before=st["C"], faces_before=st["F"], cells_after=obs["C"], **sf.detail))
@@ -945,8 +954,8 @@ def explore_polyline(M, n, edges, depth, rep: Report):
                 if s["V"][:n0] != st["V"]:
                     rep.violation("C13.polyline.originals_in_place", callee, "mismatch:original_vertex_moved", cls, det); continue
                 a, b = st["E"][e]
-                mid = R.centroid((st["P"][a], st["P"][b]))
-                c, d = R.snap(s["V"][n0], [mid], R.tolerance(st["V"]))
+                mid = R.centroid3((st["P"][a], st["P"][b]))
+                c, d = R.snap(s["V"][n0], [(0, tuple(float(x) for x in mid))], R.tolerance(st["V"]))
                 if c is None:
                     rep.violation("C13.polyline.new_vertex_position", callee, "mismatch:new_vertex_not_at_the_middle", cls, dict(det, got=list(s["V"][n0]), want=[float(x) for x in mid])); continue
                 want = sorted([tuple(sorted(x)) for i, x in enumerate(st["E"]) if i != e] + [tuple(sorted((a, n0))), tuple(sorted((b, n0)))])
